@@ -2,6 +2,7 @@ import InfluxQL.Lemmas.StmtPieces
 import InfluxQL.Lemmas.StmtExprPieces
 import InfluxQL.Lemmas.AdminPieces
 import InfluxQL.Lemmas.SelectClauses
+import InfluxQL.Lemmas.StmtExprPiecesWide
 /-
 Pieces for the SHOW statements with a `WITH KEY` / `WITH MEASUREMENT` / `ON db.rp` clause (C02):
 the comparison tokens `!=`, `=~`, `!~`, the parentheses and `*` as printed pieces, the identifier
@@ -671,5 +672,70 @@ theorem parseOptFrom_quals (s : PState) (qs : List (Str × Str × Str)) (k : Str
     unfold parseOptFrom
     rw [P.run_bind _ _ s true s1 h1]
     exact h2
+
+/-! ## the frame: clause parsers change neither the bound parameters nor the lower-casing table
+
+C04's totality contracts (`Tot`, `Lemmas/TotalStmt*.lean`) say that every clause parser run from a state
+with the ring invariant ends in such a state with the same parameters and table. This carries the table
+hypothesis of the wide expression class (`CondOKW s.lowerTbl c`) from the start of a statement to its WHERE
+clause. -/
+
+/-- The ring invariant and at most one token pushed back (true of `PState.init` and kept by every parser). -/
+def Fr (s : PState) : Prop := Good s ∧ s.n ≤ 1
+
+theorem Fr.init (text : Str) (params : List (Str × BoundValue)) (tbl : List (Char × Char)) :
+    Fr (PState.init text params tbl) := ⟨⟨Nat.zero_le _, Nat.zero_le _⟩, Nat.zero_le _⟩
+
+/-- A successful run of a parser with a totality contract keeps the frame. -/
+theorem tot_frame {α : Type} {m : P α} (ht : ∀ B, Tot B m) {s s' : PState} {a : α} (hr : m.run s = .ok (a, s'))
+    (hs : Fr s) : Fr s' ∧ RT.Same s s' := by
+  have h := ht (mu s) s ⟨hs.1, hs.2, Nat.le_refl _⟩
+  rw [wp_of_run_ok hr] at h
+  exact ⟨⟨h.1.good, h.2⟩, h.1.params, h.1.lower⟩
+
+/-- `ScanIgnoreWhitespace` + `Unscan` (a look-ahead) is a run of `optTok` for a token other than the one seen. -/
+theorem peek_as_optTok (t : Token) {s : PState} {lx : Lexeme} {s1 : PState} (h : scanIW.run s = .ok (lx, s1))
+    (hne : lx.tok ≠ t) : (optTok t).run s = .ok (false, unsc s1) := by
+  unfold optTok
+  rw [P.run_bind _ _ s lx s1 h]
+  simp only [hne, if_false]
+  rw [P.run_bind _ _ s1 () _ (unscan_run s1)]
+  rfl
+
+theorem peek_frame (t : Token) {s : PState} {lx : Lexeme} {s1 : PState} (h : scanIW.run s = .ok (lx, s1))
+    (hne : lx.tok ≠ t) (hs : Fr s) : Fr (unsc s1) ∧ RT.Same s (unsc s1) :=
+  tot_frame (fun _ => optTok_tot t) (peek_as_optTok t h hne) hs
+
+theorem parseOnMeas_tot {B : Nat} : Tot B parseOnMeas := by
+  unfold parseOnMeas; tot
+
+theorem parseWithMeas_tot {B : Nat} : Tot B parseWithMeas := by
+  unfold parseWithMeas; tot
+
+/-- `cardRest_print` for conditions of the wide class (`time > now() - 1h`, …). -/
+theorem cardRest_printW (fuel : Nat) (s : PState) (C : Option Expr → List Expr → Int → Int → Statement)
+    (c : Option Expr) (ds : List Expr) (l o : Int) (k : Str) (hc : CondOKW s.lowerTbl c)
+    (hds : ∀ x ∈ ds, RT.rtOK false x = true)
+    (hl : 0 ≤ l ∧ l ≤ maxInt64) (ho : 0 ≤ o ∧ o ≤ maxInt64) (hk : Follow k cardStop)
+    (hs : RT.Stand s (whereText c ++ (groupText ds ++ (posText .LIMIT l ++ (posText .OFFSET o ++ k))))) :
+    wp (do
+      let cond ← parseCondition fuel
+      let dims ← parseDimensions fuel
+      let limit ← parseOptTokInt .LIMIT
+      let offset ← parseOptTokInt .OFFSET
+      pure (C cond dims limit offset)) s (fun st s' => st = C c ds l o ∧ RT.Stand s' k) (· = .fuel) := by
+  obtain ⟨g5, g4, g3, _⟩ := cardRest_follow c ds l o k hk
+  rw [wp_bind]
+  refine wp_mono (parseCondition_printW fuel s c _ hc (g3.mono (by decide)) hs) ?_ (fun _ h => h)
+  intro c' s1 ⟨hc', st1, _⟩
+  subst hc'
+  rw [wp_bind]
+  refine wp_mono (parseDimensions_print fuel s1 ds _ hds (g4.mono (by decide)) st1) ?_ (fun _ h => h)
+  intro ds' s2 ⟨hds', st2⟩
+  subst hds'
+  obtain ⟨s3, h3, st3⟩ := parseOptTokInt_print .LIMIT (by decide +kernel) s2 l _ hl.1 hl.2 (g5.mono (by decide)) st2
+  obtain ⟨s4, h4, st4⟩ := parseOptTokInt_print .OFFSET (by decide +kernel) s3 o k ho.1 ho.2 (hk.mono (by decide)) st3
+  rw [wp_bind, wp_of_run_ok h3, wp_bind, wp_of_run_ok h4, wp_pure]
+  exact ⟨rfl, st4⟩
 
 end InfluxQL
